@@ -90,6 +90,7 @@ GALLERY = [
      ("", None), "pub trait GP<'a> { fn gp(&self, s: &'a str) -> &'a str; } pub trait GM<'a> { fn gm(&self, s: &'a str) -> usize; }\n"
                  "impl<'a, T> GP<'a> for ::entrait::Impl<T> { fn gp(&self, s: &'a str) -> &'a str { &s[1..] } } impl<'a, T> GM<'a> for ::entrait::Impl<T> { fn gm(&self, s: &'a str) -> usize { s.len() } }"),
     # a destructuring pattern whose single binding is named like the fn itself, next to patterns without any usable name
+    ("<D>(deps: &D, Wrap(subj): Wrap, x: u32) -> u32", "{ subj + x }", "Wrap(1), 2", "3", ("", None), "pub struct Wrap(pub u32);"),   # (every pattern can be lifted)
     ("<D>(deps: &D, Wrap(subj): Wrap, (dx, dy): (u32, u32)) -> u32", "{ subj + dx + dy }", "Wrap(1), (2, 3)", "6", ("", None), "pub struct Wrap(pub u32);"),
     ("<D>(deps: &D, _: bool, &subj: &u32, [a, b]: [u32; 2], Wrap(arg1): Wrap) -> u32", "{ subj + a + b + arg1 }", "true, &1, [2, 3], Wrap(4)", "10", ("", None), "pub struct Wrap(pub u32);"),
     ("<'a, D, T: ::core::default::Default + ::core::fmt::Debug, const N: usize>(deps: &'a D, s: &'a str) -> (::std::string::String, &'a str)",
@@ -130,6 +131,16 @@ def gallery_cases(label):
                    '    ::vrt::phase("direct"); { let r = %s; ::vrt::result(&r); }' % conv(w("%s%s(&app, %s)" % (path, turbofish, args))),
                    '    ::vrt::phase("trait"); { let r = %s; ::vrt::result(&r); }' % conv(w(trait_call or "app.subj(%s)" % args)), "}"]
             out.append(core.Case(cid, item + "\n" + "\n".join(run) + "\n", meta={"gallery": gi, "form": form, "want": want, "nontrivial": True, "sig": sig}))
+    # the whole type of the dependency parameter arrives through a macro_rules `ty` fragment (a None-delimited group around `&..`)
+    for k, dty in enumerate(["&impl ::core::marker::Sized", "&D", "&(impl ::core::marker::Sized + ::core::marker::Sync)", "&'a D"]):
+        src = ("macro_rules! define { ($deps:ty) => {\n    #[::entrait::entrait(pub Subj)] /*@inv*/\n    fn subj<'a, D>(deps: $deps, x: &'a i32) -> i32 { *x + 1 }\n} }\n"
+               "define!(%s);\npub fn run() {\n    let app = ::entrait::Impl::new(());\n"
+               '    ::vrt::phase("direct"); { let r = subj::<()>(&app, &1); ::vrt::result(&r); }\n    ::vrt::phase("trait"); { let r = app.subj(&1); ::vrt::result(&r); }\n}\n') % dty
+        if "D" not in dty.replace("Sized", ""):
+            src = src.replace("fn subj<'a, D>", "fn subj<'a>").replace("subj::<()>(", "subj(")
+        else:
+            src = src.replace("subj::<()>(", "subj(")
+        out.append(core.Case("c03g%s_ty_%d" % (label, k), src, meta={"gallery": 900 + k, "form": "fn", "want": "2", "nontrivial": True, "sig": "(deps: $deps = %s, x: &'a i32) -> i32" % dty}))
     return out
 
 
